@@ -135,6 +135,7 @@ def run(ctx):
     signatures(ctx, funcs)
     nullable_metadata(ctx)
     validate_before_decode(ctx)
+    loop_progress(ctx)
     recursion(ctx)
     entry_points(ctx)
 
@@ -398,6 +399,105 @@ def _is_sharing_guard(ctx, fi) -> bool:
     loops = any(isinstance(n, (ast.While, ast.For)) for n in ast.walk(node)) or any(
         isinstance(n, ast.Call) and isinstance(n.func, (ast.Name, ast.Attribute)) and ast.unparse(n.func).split(".")[-1] == fi.name for n in ast.walk(node))
     return bool(tested and covers and loops)
+
+
+def _is_progress(stmt) -> bool:
+    """index += k / worklist.pop() / next(it) / data = data[n:] - the loop consumes something."""
+    if isinstance(stmt, ast.AugAssign) and isinstance(stmt.op, (ast.Add, ast.Sub)) and isinstance(stmt.target, ast.Name):
+        v = stmt.value
+        return isinstance(v, ast.Constant) and isinstance(v.value, int) and v.value != 0 or not isinstance(v, ast.Constant)
+    for n in ast.walk(stmt):
+        if isinstance(n, ast.Call):
+            if isinstance(n.func, ast.Attribute) and n.func.attr in ("pop", "popleft", "popitem", "read", "readline"):
+                return True
+            if isinstance(n.func, ast.Name) and n.func.id == "next":
+                return True
+    if isinstance(stmt, ast.Assign) and len(stmt.targets) == 1 and isinstance(stmt.targets[0], ast.Name) and isinstance(stmt.value, ast.Subscript) \
+            and isinstance(stmt.value.value, ast.Name) and stmt.value.value.id == stmt.targets[0].id and isinstance(stmt.value.slice, ast.Slice):
+        return True
+    return False
+
+
+def _loop_paths(stmts, progressed):
+    """Abstract paths through a loop body: list of (how, progressed) with how in fall / continue / exit.  An exception inside a try
+    body may happen before any progress statement of that body (conservative)."""
+    states = [progressed]
+    out = []
+    for st in stmts:
+        nxt = []
+        for pg in states:
+            if isinstance(st, ast.Continue):
+                out.append(("continue", pg, st))
+            elif isinstance(st, (ast.Break, ast.Return, ast.Raise)):
+                out.append(("exit", pg, st))
+            elif isinstance(st, ast.If):
+                for how, p2, n in _loop_paths(st.body, pg) + _loop_paths(st.orelse, pg):
+                    if how == "fall":
+                        nxt.append(p2)
+                    else:
+                        out.append((how, p2, n))
+            elif isinstance(st, ast.Try):
+                body = _loop_paths(st.body, pg)
+                for how, p2, n in body:
+                    if how == "fall":
+                        for h2, p3, n3 in _loop_paths(st.orelse, p2):
+                            if h2 == "fall":
+                                nxt.append(p3)
+                            else:
+                                out.append((h2, p3, n3))
+                    else:
+                        out.append((how, p2, n))
+                for h in st.handlers:
+                    for how, p2, n in _loop_paths(h.body, pg):  # exception before the body progressed
+                        if how == "fall":
+                            nxt.append(p2)
+                        else:
+                            out.append((how, p2, n))
+            elif isinstance(st, (ast.With,)):
+                for how, p2, n in _loop_paths(st.body, pg):
+                    if how == "fall":
+                        nxt.append(p2)
+                    else:
+                        out.append((how, p2, n))
+            elif isinstance(st, (ast.For, ast.While)):
+                nxt.append(pg)  # an inner loop may run zero times: no progress assumed; its break / continue are its own
+            elif isinstance(st, ast.Match):
+                for c in st.cases:
+                    for how, p2, n in _loop_paths(c.body, pg):
+                        if how == "fall":
+                            nxt.append(p2)
+                        else:
+                            out.append((how, p2, n))
+            else:
+                nxt.append(pg or _is_progress(st))
+        states = sorted(set(nxt))
+        if not states:
+            break
+    out.extend(("fall", pg, None) for pg in states)
+    return out
+
+
+def loop_progress(ctx):
+    """Every while loop of the parser consumes input (advances an index / pops a work item) on each path that goes round again."""
+    R = ctx.report
+    repo = ctx.repo
+    R.rule("C17-D8 parser loops make progress", 1, "per while loop: no path reaches the next iteration without advancing")
+    n = 0
+    for m in repo.modules.values():
+        if not m.name.startswith(PARSER_PREFIX):
+            continue
+        for f in m.functions.values():
+            for w in walk_no_nested(f.node):
+                if not isinstance(w, ast.While):
+                    continue
+                n += 1
+                stuck = [(how, node) for how, pg, node in _loop_paths(w.body, False) if how in ("fall", "continue") and not pg]
+                where = stuck[0][1] if stuck and stuck[0][1] is not None else w
+                R.check("C17-D8 parser loops make progress", not stuck, f"{ctx.fq(f)}: while {ast.unparse(w.test)[:40]}", mod=m, node=where,
+                        function=ctx.fq(f), expected="each path back to the loop head advances the index / consumes a work item",
+                        found=f"a path ({'continue' if stuck and stuck[0][0] == 'continue' else 'end of body'} at line "
+                              f"{getattr(where, 'lineno', '?')}) repeats the iteration with nothing consumed: the same element is retried forever"
+                        if stuck else "", key_extra=f"while@{ast.unparse(w.test)[:30]}")
 
 
 def recursion(ctx):
